@@ -341,7 +341,7 @@ func (e *Evaluator) val(f *ssa.Function, env map[ssa.Value]Vec, v ssa.Value) (Ve
 		}
 		return out, fmt.Errorf("unsupported constant %v", x)
 	case *ssa.Parameter:
-		if in, ok := e.Inputs[x.Name()]; ok {
+		if in, ok := e.Inputs[ParamName(x)]; ok {
 			out = in
 			break
 		}
@@ -363,7 +363,7 @@ func (e *Evaluator) val(f *ssa.Function, env map[ssa.Value]Vec, v ssa.Value) (Ve
 		name := ""
 		if p, ok := x.X.(*ssa.Parameter); ok {
 			st := p.Type().Underlying().(*types.Struct)
-			name = p.Name() + "." + st.Field(x.Field).Name()
+			name = ParamName(p) + "." + st.Field(x.Field).Name()
 		}
 		if in, ok := e.Inputs[name]; ok {
 			out = in
@@ -537,17 +537,17 @@ func (e *Evaluator) val(f *ssa.Function, env map[ssa.Value]Vec, v ssa.Value) (Ve
 				src := ""
 				switch p := a.(type) {
 				case *ssa.Parameter:
-					src = p.Name()
+					src = ParamName(p)
 				case *ssa.UnOp:
 					if al, ok := p.X.(*ssa.Alloc); ok && p.Op == token.MUL {
-						src = al.Comment
+						src = spillName(al)
 					}
 				}
 				if src != "" {
 					st := a.Type().Underlying().(*types.Struct)
 					for fi := 0; fi < st.NumFields(); fi++ {
 						if in, ok := e.Inputs[src+"."+st.Field(fi).Name()]; ok {
-							sub.Inputs[callee.Params[i].Name()+"."+st.Field(fi).Name()] = in
+							sub.Inputs[ParamName(callee.Params[i])+"."+st.Field(fi).Name()] = in
 						}
 					}
 				}
@@ -559,7 +559,7 @@ func (e *Evaluator) val(f *ssa.Function, env map[ssa.Value]Vec, v ssa.Value) (Ve
 				return out, err
 			}
 			args = append(args, av)
-			sub.Inputs[callee.Params[i].Name()] = av
+			sub.Inputs[ParamName(callee.Params[i])] = av
 		}
 		rs, err := sub.Func(callee, args)
 		if err != nil {
@@ -584,7 +584,20 @@ func spilledField(fa *ssa.FieldAddr) string {
 	if !ok {
 		return ""
 	}
-	return al.Comment + "." + st.Field(fa.Field).Name()
+	return spillName(al) + "." + st.Field(fa.Field).Name()
+}
+
+// spillName names the local a parameter was spilled to by the parameter's
+// (reference) name; any other local by its source name.
+func spillName(al *ssa.Alloc) string {
+	if f := al.Parent(); f != nil {
+		for _, p := range f.Params {
+			if p.Name() == al.Comment {
+				return ParamName(p)
+			}
+		}
+	}
+	return al.Comment
 }
 
 // Spec describes expected bits: ranges of "dst bits [lo,hi) = src[srcLo...]"
@@ -669,3 +682,8 @@ func next(a, b Bit) bool {
 	}
 	return true
 }
+
+// ParamName names a parameter in the abstract inputs; the checker sets it to the
+// reference name of the parameter, so that input tables written with parameter
+// names keep resolving when a parameter is renamed.
+var ParamName = func(p *ssa.Parameter) string { return p.Name() }
